@@ -295,8 +295,8 @@ def trace_validation(ctx, B):
     tlc.cleanup(wd)
 
 
-def proofs(ctx, modules=('BBoxLaws', 'SliceLaws')):
-    """Unbounded TLAPS proofs: lattice laws of union / intersection, and the overlap-window arithmetic of get_overlap_slices."""
+def proofs(ctx, modules=('BBoxLaws', 'SliceLaws', 'FloatLaws')):
+    """Unbounded TLAPS proofs: lattice laws of union / intersection, the overlap-window arithmetic of get_overlap_slices, the rounding law of from_float."""
     from .. import tlaps
     tot_ob = tot_ok = 0
     for module in modules:
